@@ -142,10 +142,14 @@ EndBlock(kw, named, semi) ==
    /\ LET b == stk[Len(stk)] IN
       stk' = [SubSeq(stk, 1, Len(stk) - 1) EXCEPT ![Len(stk) - 1].items = Append(@, N("item", b.name, << N(b.cls, <<>>, b.items) >>))]
    /\ UNCHANGED <<nst, phase, lay>>
-Finish(kw, semi, trailer) ==
+TailComment(n) == IF n = 1 THEN LF \o S("/* todo: life = 42 ( { */")
+                  ELSE LF \o S("# x = 1 ( \" ") \o LF                   \* (ISIS / default grammars only)
+Finish(kw, semi, trailer, tail) ==
    /\ phase = "build" /\ Len(stk) = 1 /\ stk[1].items # <<>>
+   /\ (tail = 2 => HashComments(Dialect))
    /\ Put((IF kw = <<>> THEN <<>> ELSE << Tk(kw, "req") >>) \o (IF semi THEN << Tk(S(";"), "opt") >> ELSE <<>>)
-          \o (IF trailer THEN << Tk(S("this is = ( not \" read"), "req") >> ELSE <<>>))
+          \o (IF trailer THEN << Tk(S("this is = ( not \" read"), "req") >> ELSE <<>>)
+          \o (IF tail > 0 THEN << Tk(TailComment(tail), "req") >> ELSE <<>>))
    /\ phase' = "ended" /\ UNCHANGED <<stk, nst, lay>>
 
 (* C08: an assignment whose value is missing; its placeholder carries the line of its '=', known once the layout is chosen *)
@@ -170,8 +174,9 @@ Build ==
    \/ \E kw \in ObjectKw, semi \in BOOLEAN : Begin(kw, "PVLObject", S("^O"), semi) /\ Vary
    \/ EndBlock(EndOf(stk[Len(stk)].cls), TRUE, FALSE) /\ Same
    \/ \E kw \in (IF stk[Len(stk)].cls = "PVLGroup" THEN EndG ELSE EndO), named \in BOOLEAN, semi \in BOOLEAN : EndBlock(kw, named, semi) /\ Vary
-   \/ Finish(S("END"), FALSE, FALSE) /\ Same
-   \/ \E kw \in EndKw \cup {<<>>}, semi \in BOOLEAN, trailer \in BOOLEAN : (kw # <<>> \/ (~semi /\ ~trailer)) /\ Finish(kw, semi, trailer) /\ Vary
+   \/ Finish(S("END"), FALSE, FALSE, 0) /\ Same
+   \/ \E tail \in {1, 2} : Profile \in {"missing", "random"} /\ Finish(<<>>, FALSE, FALSE, tail) /\ Same
+   \/ \E kw \in EndKw \cup {<<>>}, semi \in BOOLEAN, trailer \in BOOLEAN : (kw # <<>> \/ (~semi /\ ~trailer)) /\ Finish(kw, semi, trailer, 0) /\ Vary
 
 (* ---- layouts ---- *)
 SepsBase == << <<32>>, <<9>>, <<10>>, <<13>>, <<11>>, <<12>>, <<13, 10>>, <<32, 32>>, <<32, 10, 32>>,
